@@ -28,8 +28,8 @@ def gen_abstract(rng):
     return dict(
         current_version=rng.choice(["2020.1001-alpha", "2021.1042", "2019.11000-rc"]),
         version_pattern="YYYY.BUILD[-TAG]",
-        commit_message=rng.choice([None, "bump {old_version} -> {new_version}", "release {new_version}", "release {new_version} (100% done)"]),
-        tag_message=rng.choice([None, "{new_version}", "v {new_version}"]),
+        commit_message=rng.choice([None, "bump {old_version} -> {new_version}", "release {new_version}", "release {new_version} (100% done)", "release {new_version} #noci ; see log"]),
+        tag_message=rng.choice([None, "{new_version}", "v {new_version}", "release #{new_version}"]),
         tag_scope=rng.choice(SCOPES),
         commit=commit,
         tag=tag,
